@@ -291,7 +291,9 @@ def case_merge(ctx, rng):
         m = pe.merge_obs(obs)
         ctx.count('merge_cases')
         ctx.cell('merge', 'reps%d' % len(names), 'parts%d' % len(part))
-        compare_obs(ctx, m, ref, 'merge', rtol=1e-12, what='union of chains', rv_tol=1e-12)
+        # the merged value is a mean over all samples: its rounding is relative to the size of the samples, not to a mean that cancels
+        vs_ = max(abs(ref['value']), max(max(abs(v_) for v_ in d_.values()) for d_ in tab.values()))
+        compare_obs(ctx, m, ref, 'merge', rtol=1e-12, what='union of chains', rv_tol=1e-12, value_scale=vs_)
         ctx.equal(bool(m.reweighted), False, 'merge:flag-set-without-cause')
         ctx.nontrivial.add(digest('merge', [sorted(g) for g in order], sorted((n, sorted(d.items())) for n, d in tab.items())))
     ctx.sample({'merge_chains': {n: len(d) for n, d in tab.items()}, 'partitions': len(parts) - 1})
